@@ -590,4 +590,38 @@ def c06(ctx):
                       'judged by TraceFault.tla (never success; update wrote nothing).')
 
 
-CHECKS = {'C06': c06, 'C16': c16, 'C15': c15, 'C14': c14, 'C05': c05, 'C11': c11, 'C03': c03, 'C10': c10, 'C12': c12, 'C13': c13, 'C01': c01, 'C02': c02, 'C04': c04, 'C07': c07, 'C08': c08, 'C09': c09}
+def c17(ctx):
+    from . import drv_hash as d
+    thorough = ctx.tier == 'thorough'
+    rng = random.Random(ctx.seed)
+    ctx.mc('HashFile', 'MC_HashFile.cfg')
+    ctx.mc('HashFile', 'MC_HashFile_capped.cfg', expect_violation='Whole', coverage=False)
+    lens = list(range(0, 301)) + [65534, 65535, 65536, 65537, 65538, 131071, 131072, 131073,
+                                  1048574, 1048575, 1048576, 1048577, 1048578]
+    lens += [rng.randrange(1100000, 3500000) for _ in range(12 if thorough else 2)]
+    reps = 6 if thorough else 1
+    jobs = []
+    for rep in range(reps):
+        ll = list(lens)
+        rng.shuffle(ll)
+        jobs += [(ll[k::16], ctx.seed * 101 + rep * 16 + k) for k in range(16)]
+    recs = [r for o in core.pool_map(d.stream_records, jobs, chunksize=1) for r in o]
+    ctx.sample({'stream': {k: recs[5][k] for k in ('len', 'hint', 'style', 'names', 'nreads')}, 'reads': recs[5]['reads'][:6]})
+    recs += [r for o in core.pool_map(d.path_records, [(lens[k::16], ctx.seed + k) for k in range(16)], chunksize=1) for r in o]
+    names = d.name_records(ctx.seed)
+    ctx.extra['name_table'] = [[r['name'], r['supported'], r['outcome'], r['reference']] for r in names]
+    recs += names
+    ctx.judge('TraceHash', 'TraceHash.cfg', recs, None, {'module': 'TraceHash'},
+              sig=lambda r: hash(json_key({a: b for a, b in r.items() if a != 'id'})))
+    ctx.assumptions += ['independent implementations: coreutils (md5sum, sha1sum, sha256sum, sha512sum, b2sum) and openssl dgst '
+                        '(sha3-256, sha3-512, blake2s256, rmd160) where present, else one-shot hashlib',
+                        'whether an algorithm is "the standard one" is decided by those references, not by the model',
+                        'XOF names (shake_*) are lenient']
+    return ctx.finish(rule='HashFile.tla: slurp-or-chunk read loop under all short-read schedules (scaled thresholds) by TLC; '
+                      'real hash_file on scripted streams for every length 0..300, around 64 KiB / 128 KiB / 1 MiB (+-2) and '
+                      'random longer, with hints 0 / true / smaller / larger / around 1 MiB and full / random / half / one-byte '
+                      'read schedules; real files through get_file_metadata, hash_path and update_entry_for_path; the ten Manifest '
+                      'hash names and every hashlib name against independent implementations; judged by TraceHash.tla.')
+
+
+CHECKS = {'C17': c17, 'C06': c06, 'C16': c16, 'C15': c15, 'C14': c14, 'C05': c05, 'C11': c11, 'C03': c03, 'C10': c10, 'C12': c12, 'C13': c13, 'C01': c01, 'C02': c02, 'C04': c04, 'C07': c07, 'C08': c08, 'C09': c09}
